@@ -2,6 +2,7 @@ package main
 
 import (
 	"fmt"
+	"go/constant"
 	"go/types"
 	"path/filepath"
 	"strings"
@@ -128,6 +129,57 @@ func selftest(verif string) int {
 			}
 			expect("R-ORDER "+t.name, reported(c) || n == 0, t.bad)
 		}
+	}
+	// R-FRESH
+	for _, t := range []struct {
+		name string
+		bad  bool
+	}{{"FreshOK", false}, {"FreshBad", true}} {
+		if fn := fnOf(pkg + "." + t.name); fn != nil {
+			expect("R-FRESH "+t.name, len(loopFreshness(fn)) > 0, t.bad)
+		}
+	}
+	// R-PURE
+	for _, t := range []struct {
+		name string
+		bad  bool
+	}{{"PureOK", false}, {"PureBad", true}} {
+		if fn := fnOf(pkg + "." + t.name); fn != nil {
+			c := sub()
+			n := c.PureObligations([]*ssa.Function{fn}, nil, "fixture")
+			expect("R-PURE "+t.name, reported(c) || n == 0, t.bad)
+		}
+	}
+	// R-CHARSET
+	if wide, narrow, other := fnOf(pkg+".SetWide"), fnOf(pkg+".SetNarrow"), fnOf(pkg+".SetOther"); wide != nil && narrow != nil && other != nil {
+		ws, e1 := acceptSet(wide, 0, nil)
+		ns, e2 := acceptSet(narrow, 0, map[int]constant.Value{1: constant.MakeBool(true)})
+		n0, e3 := acceptSet(narrow, 0, map[int]constant.Value{1: constant.MakeBool(false)})
+		os, e4 := acceptSet(other, 0, nil)
+		ok1, _ := ns.subsetOf(ws)
+		ok2, miss := os.subsetOf(ws)
+		expect("R-CHARSET decided", e1+e2+e3+e4 != "", false)
+		expect("R-CHARSET narrow<=wide", !ok1, false)
+		expect("R-CHARSET other<=wide", !ok2 && len(miss) == 1 && miss[0] == '_', true)
+		expect("R-CHARSET flag binding", n0['-'] || !ns['-'] || !ws['\''] || ws['('], false)
+	}
+	// R-INIT
+	for _, t := range []struct {
+		name string
+		bad  bool
+	}{{"AccOK", false}, {"AccBad", true}} {
+		if fn := fnOf(pkg + "." + t.name); fn != nil {
+			expect("R-INIT "+t.name, accumulatesInto(fn, fn.Params[0]), t.bad)
+		}
+	}
+	// R-CURVES
+	for _, t := range []struct {
+		name string
+		bad  bool
+	}{{"CurvesOK", false}, {"CurvesBad", true}} {
+		c := sub()
+		curveTableRule(c, pkg+"."+t.name, "fixture")
+		expect("R-CURVES "+t.name, reported(c) || len(c.Obls) == 0, t.bad)
 	}
 	if fails > 0 {
 		fmt.Printf("SELFTEST FAILED: %d engine fixtures gave the wrong verdict\n", fails)
